@@ -143,8 +143,6 @@ def run_check(prop, tier, seed):
             lc[name] = 'function not found (renamed?): not covered, oracle at the API still applies'
             continue
         lc[name] = {'lines_hit': len(info['lines_hit']), 'lines_total': info['lines_total']}
-        if not info['lines_hit']:
-            inconclusive.append(f'mechanism {name} was never executed')
 
     lines = []
     known_report = {}
